@@ -198,7 +198,7 @@ def _c16_ids(name):
     return lab in ("IG1", "IG2", "IG3", "SK1") or lab.startswith("gen.") or lab.startswith("skip.") or lab.endswith("IdGenerator::gen.safety") or "skip" in lab
 
 
-prop("C16", ["toposort", "rq_tables", "ids_names", "lower_cols", "rq_shape", "lineage_except", "rq_fold"], select={"ids_names": _c16_ids},
+prop("C16", ["toposort", "rq_tables", "ids_names", "lower_cols", "rq_shape", "lineage_except", "rq_fold", "flatten_sort"], select={"ids_names": _c16_ids, "flatten_sort": lambda n: n.split(".", 1)[1] in ("FO1", "FO2", "FT1", "FT3", "flatten_other_arm.safety")},
      not_covered="visibility of ids across joins / sub-pipelines (redirect_mappings over node_mapping: HashMap<usize, LoweredTarget>), lower_expr, "
                  "how push_select collects its columns, create_a_table_instance; toposort()'s Key->index map and driver loop")
 claim("C16",
